@@ -17,7 +17,7 @@ THEOREMS = ['builder_roundtrip', 'from_iter_session_full', 'builder_roundtrip_pa
 COQ_DIR = os.path.join(C.VERIF, 'c14', 'coq')
 COQ_LOGICAL = '-R %s/coq AwkV -R . AwkBuilder' % C.VERIF
 NEEDS_SAN = True
-DRIVERS = ('builddrv', 'lbdrv')
+DRIVERS = ('builddrv', 'lbdrv', 'pydrv')
 PROPS_FILES = ['Props_C14.v', 'Props_C14lb.v']
 RULE = ('sessions = command sequences over {null,bool,int,real,str,bytes,beginlist,endlist,begintuple,index,endtuple,'
         'beginrecord(name|unnamed),field,endrecord,snapshot,clear}; 70% are the from_iter encoding of random nested '
@@ -471,7 +471,123 @@ def minimise(c, kind, san, budget=120):
 def run(cases, tier, rng):
     lbcases = [c for c in cases if c.op == 'lb']
     out = run_build([c for c in cases if c.op != 'lb'], tier, rng)
-    return run_lb(lbcases, tier, out)
+    out = run_lb(lbcases, tier, out)
+    return run_fromiter(tier, rng, out)
+
+
+# ---------------------------------------------------------------- ak.from_iter through the real Python layer (pyshim)
+def _fi_type(rng, depth):
+    """a type whose values need no unification: from_iter(values) must come back from to_list unchanged"""
+    r = rng.random()
+    if depth <= 0 or r < 0.3:
+        return ('leaf', rng.choice(['complex', 'complex', 'int', 'float', 'bool', 'str', 'bytes']))
+    if r < 0.55:
+        return ('list', _fi_type(rng, depth - 1))
+    if r < 0.7:
+        t = _fi_type(rng, depth - 1)
+        return t if t[0] == 'opt' else ('opt', t)
+    if r < 0.85:
+        return ('tuple', [_fi_type(rng, depth - 1) for _ in range(rng.choice([1, 2, 2, 3]))])
+    keys = rng.sample(['x', 'y', 'z', 'w'], rng.choice([1, 2, 3]))
+    return ('rec', [(k, _fi_type(rng, depth - 1)) for k in keys])
+
+
+def _fi_value(rng, t):
+    k = t[0]
+    if k == 'leaf':
+        d = t[1]
+        if d == 'complex':
+            return complex(rng.randint(-9, 9), rng.randint(-9, 9))
+        if d == 'int':
+            return rng.randint(-99, 99)
+        if d == 'float':
+            return rng.randint(-99, 99) + 0.5
+        if d == 'bool':
+            return rng.random() < 0.5
+        s = ''.join(rng.choice('abcxyz') for _ in range(rng.choice([0, 1, 2, 3])))
+        return s if d == 'str' else s.encode()
+    if k == 'list':
+        return [_fi_value(rng, t[1]) for _ in range(rng.choice([0, 1, 2, 3]))]
+    if k == 'opt':
+        return None if rng.random() < 0.3 else _fi_value(rng, t[1])
+    if k == 'tuple':
+        return tuple(_fi_value(rng, x) for x in t[1])
+    return {key: _fi_value(rng, x) for key, x in t[1]}
+
+
+def _strict_equal(a, b):
+    if type(a) is not type(b):
+        return False
+    if isinstance(a, (list, tuple)):
+        return len(a) == len(b) and all(_strict_equal(x, y) for x, y in zip(a, b))
+    if isinstance(a, dict):
+        return list(a) == list(b) and all(_strict_equal(a[k], b[k]) for k in a)
+    return a == b
+
+
+def run_fromiter(tier, rng, out):
+    """ak.from_iter (the ArrayBuilder behind the real Python layer, incl. complex leaves, which the command sessions above do
+    not drive) on values of one type each (no unification needed): to_list must return the values themselves"""
+    import subprocess
+    import time
+    n = 1500 if tier == 'quick' else 30000
+    cases = []
+    for i in range(n):
+        t = _fi_type(rng, rng.choice([1, 2, 2, 3]))
+        vals = [_fi_value(rng, t) for _ in range(rng.choice([1, 2, 3, 4]))]
+        if t[0] == 'opt' and all(v is None for v in vals):
+            vals.append(_fi_value(rng, t[1]))          # (a list of only None has no element type)
+        cases.append(('f%d' % i, vals, t))
+    import pyhalves as P
+    P.build(impl=True)                                  # pydrv behind pyshim, rebuilt from /repo
+    env = dict(os.environ, PYTHONHASHSEED='0', PYTHONDONTWRITEBYTECODE='1')
+    t0 = time.time()
+    try:
+        p = subprocess.run(['/venv/bin/python', os.path.join(C.VERIF, 'harness', 'py_c14.py')],
+                           input=''.join('%s\t%r\n' % (cid, vals) for cid, vals, _ in cases),
+                           stdout=subprocess.PIPE, stderr=subprocess.PIPE, text=True, timeout=900, env=env)
+        lines = p.stdout.splitlines()
+    except subprocess.TimeoutExpired:
+        lines = []
+    got = {}
+    for ln in lines:
+        parts = ln.split('\t', 2)
+        if len(parts) == 3:
+            got[parts[0]] = (parts[1], parts[2])
+    C.log('from_iter: %d calls in %.1fs' % (len(got), time.time() - t0))
+    ok = True
+    nagree = 0
+    kinds = {}
+    best = None
+    for cid, vals, t in cases:
+        st = got.get(cid)
+        problem = None
+        if st is None:
+            problem = 'the runner gave no answer (crash / hang)'
+        elif st[0] != 'ok':
+            problem = 'from_iter / to_list raised %s' % st[1]
+        else:
+            try:
+                back = eval(st[1], {'__builtins__': {}}, {'nan': float('nan'), 'inf': float('inf')})
+            except Exception as e:      # noqa: BLE001
+                back, problem = None, 'unreadable answer %r' % (e,)
+            if problem is None and not _strict_equal(back, vals):
+                problem = 'to_list(from_iter(values)) = %s' % st[1][:400]
+        if problem is None:
+            nagree += 1
+            continue
+        ok = False
+        line = '# from_iter %s  values=%r' % (cid, vals)
+        if best is None or len(line) < len(best[0]):
+            best = (line, problem)
+    out['corr_obligations']['corr:py:from_iter-identity'] = ok
+    out['verdicts']['from_iter:agree'] = nagree
+    out['evaluations'] += len(cases)
+    out['distinct_nontrivial'] += nagree
+    if best is not None:
+        out['findings'].insert(0, dict(kind='viol', what='ak.from_iter: values of one type do not come back from to_list unchanged: ' + best[1][:300],
+                                       case_lines=[best[0], '# ' + best[1]], signature=None, size=len(best[0])))
+    return out
 
 
 def run_lb(cases, tier, out):
